@@ -61,7 +61,8 @@ static void continuous(const std::string& fam, const std::string& par, const std
 		if(mc::library_exits([&]() { p = pdf(x); c = cdf(x); })) { fail("continuous", key, "terminated_process", "valid arguments ended the process"); continue; }
 		g_cases++;
 		if(!(p >= 0) || !std::isfinite(p)) fail("continuous", key, "pdf_negative_or_not_finite", "PDF = " + mc::dec(p));
-		if(!(c >= 0 && c <= 1)) fail("continuous", key, "cdf_outside_unit_interval", "CDF = " + mc::dec(c));
+		// (the same absolute slack as for monotonicity: a difference of two rounded terms may come out as -1e-28 where the CDF is 1e-33)
+		if(!(c >= -cdf_acc && c <= 1 + cdf_acc)) fail("continuous", key, "cdf_outside_unit_interval", "CDF = " + mc::dec(c));
 		if(k > 0 && !(c >= prev - cdf_acc)) fail("continuous", key, "cdf_decreases", "CDF goes from " + mc::dec(prev) + " to " + mc::dec(c));
 		if(k == 0 && !(c <= cdf_acc)) fail("continuous", key, "cdf_not_zero_at_lower_end", "CDF = " + mc::dec(c));
 		if(k + 1 == grid.size() && !(c >= 1 - cdf_acc)) fail("continuous", key, "cdf_not_one_at_upper_end", "CDF = " + mc::dec(c));
@@ -105,14 +106,19 @@ static void continuous_families(unsigned long long& unit)
 			for(int i = -160; i <= 160; i++) g.push_back(mu + sg * (i / 4.0));
 			continuous("Gauss", mc::dec(mu) + "," + mc::dec(sg), g, [=](double x) { return PDF_Gauss(x, mu, sg); }, [=](double x) { return CDF_Gauss(x, mu, sg); }, 1e-15);
 			// quantile inverts the CDF
-			for(int i = -20; i <= 20; i++)
+			// from -9 sigma to +8.2 sigma (beyond, the CDF rounds to 1). In both tails p = CDF(x) = (1+erf)/2 is only known to an ulp of 1, which
+			// moves the quantile by u/pdf: there the round trip is judged in p (|CDF(q) - p| <= pdf * accuracy + 4u), elsewhere in x
+			for(int i = -36; i <= 33; i++)
 			{
-				double x = mu + sg * (i / 4.0), q = 0;
+				double x = mu + sg * (i / 4.0), q = 0, pr = CDF_Gauss(x, mu, sg);
 				std::string key = "Quantile_Gauss(" + mc::dec(mu) + "," + mc::dec(sg) + "),x=" + mc::dec(x);
-				if(mc::library_exits([&]() { q = Quantile_Gauss(CDF_Gauss(x, mu, sg), mu, sg); })) { fail("quantile", key, "terminated_process", "ended the process"); continue; }
+				if(pr >= 1.0 || pr <= 0.0) continue;
+				if(mc::library_exits([&]() { q = Quantile_Gauss(pr, mu, sg); })) { fail("quantile", key, "terminated_process", "ended the process"); continue; }
 				g_cases++;
-				if(!(std::fabs(q - x) <= std::sqrt(2.0) * sg * 1e-4 * 1.0001)) fail("quantile", key, "quantile_does_not_invert_cdf", "Quantile(CDF(x)) = " + mc::dec(q) + " x = " + mc::dec(x));
-				else mc::maxi("quantile_err_over_tol", std::fabs(q - x) / (std::sqrt(2.0) * sg * 1e-4), key);
+				double tolx = std::sqrt(2.0) * sg * 1e-4 * 1.0001;
+				bool in_x = std::fabs(q - x) <= tolx, in_p = std::fabs(CDF_Gauss(q, mu, sg) - pr) <= PDF_Gauss(x, mu, sg) * tolx * 1.5 + 4 * mc::U_;
+				if(!(in_x || (std::abs(i) > 20 && in_p))) fail("quantile", key, "quantile_does_not_invert_cdf", "Quantile(CDF(x)) = " + mc::dec(q) + " x = " + mc::dec(x) + ", CDF(q) = " + mc::dec(CDF_Gauss(q, mu, sg)) + " p = " + mc::dec(pr));
+				else if(in_x) mc::maxi("quantile_err_over_tol", std::fabs(q - x) / (std::sqrt(2.0) * sg * 1e-4), key);
 			}
 		}
 	// two-dimensional normal density: product of the two one-dimensional ones
@@ -139,6 +145,7 @@ static void continuous_families(unsigned long long& unit)
 		g.push_back(80 * m);
 		continuous("Exponential", mc::dec(m), g, [=](double x) { return PDF_Exponential(x, m); }, [=](double x) { return CDF_Exponential(x, m); }, 1e-15);
 		std::vector<double> h{-m, -1e-300, 0};
+		for(int i = 80; i >= 7; i--) h.push_back(m * std::pow(2.0, -i / 2.0));	// geometric approach to the lower end of the support (CDF ~ x^3)
 		for(int i = 1; i <= 120; i++) h.push_back(m * i / 10.0);
 		h.push_back(40 * m);
 		continuous("Maxwell_Boltzmann", mc::dec(m), h, [=](double x) { return PDF_Maxwell_Boltzmann(x, m); }, [=](double x) { return CDF_Maxwell_Boltzmann(x, m); }, 4e-15);
@@ -149,6 +156,7 @@ static void continuous_families(unsigned long long& unit)
 		if(!mc::mine(unit++)) continue;
 		double top = dof + 14 * std::sqrt(2 * dof) + 40;
 		std::vector<double> g{-1.0, 0.0};
+		for(int i = 60; i >= 1; i--) g.push_back(top / 200 * std::pow(2.0, -i / 2.0));	// geometric approach to zero (CDF ~ x^(dof/2))
 		for(int i = 1; i <= 200; i++) g.push_back(top * i / 200);
 		continuous("Chi_Square", mc::dec(dof), g, [=](double x) { return PDF_Chi_Square(x, dof); }, [=](double x) { return CDF_Chi_Square(x, dof); }, 2e-12);
 	}
